@@ -73,12 +73,12 @@ def add_cipher(reg):
                           valid=['%s <= %s' % (K, INT_MAX)]))
 
 
-def encrypt_contract():
+def encrypt_contract(buf='buffer'):
     def em(seed):
         return S + 'oaep_em(%s, bytes(message), %s, %s, self._mgf)' % (LHASH, K, seed)                  # 7.1.1 step 2
     too_long = 'len(message) > %s - 2 * %s - 2' % (K, HLEN)                                           # step 1b: "message too long"
     em0, em1 = em('rnd_tape(rnd_cursor())'), em('rnd_tape(old(rnd_cursor()))')
-    return Contract(CIPHER + '.encrypt', params={'message': 'buffer'},
+    return Contract(CIPHER + '.encrypt', params={'message': buf},
                     # be(EM) >= n is RSAEP's "message representative out of range" (5.1.1 step 1); NOT PROVED impossible here, see below
                     raises={'ValueError': ('iff', '%s or be(%s) >= %s' % (too_long, em0, KEY_N))},
                     result='bytes',
@@ -86,15 +86,18 @@ def encrypt_contract():
                              'length': 'len(result) == ' + K,
                              'seed': 'len(rnd_tape(old(rnd_cursor()))) == ' + HLEN,
                              'entropy': 'rnd_cursor() == old(rnd_cursor()) + 1 and sys_cursor() == old(sys_cursor())'},
-                    modifies=[], opaque=[S + 'mgf1'])
+                    modifies=[], opaque=[S + 'mgf1'],
+                    # int_lemmas: the defining inequality of int.bit_length (2^(bits-1) <= n < 2^bits) and ground monotonicity
+                    # instances of 2^x, needed for "c < n < 256^k, hence I2OSP(c, k) does not fail" (7.1.1 step 3c)
+                    options={'int_lemmas': []})
 
 
-def decrypt_contract():
+def decrypt_contract(buf='buffer'):
     em = 'i2osp(pow(be(ciphertext), %s, %s), %s)' % (KEY_D, KEY_N, K)                                 # 7.1.2 step 2: EM = I2OSP(RSADP(K, c), k)
     ok = S + 'oaep_decrypt_ok(%s, %s, %s, self._mgf)' % (em, HLEN, LHASH)                              # step 3 (b-g)
     msg = S + 'oaep_decrypt_message(%s, %s, %s, self._mgf)' % (em, HLEN, LHASH)                       # step 4
     wrong = 'len(ciphertext) != %s or %s < 2 * %s + 2 or be(ciphertext) >= %s' % (K, K, HLEN, KEY_N)  # step 1b, 1c, RSADP step 1
-    return Contract(CIPHER + '.decrypt', params={'ciphertext': 'buffer'},
+    return Contract(CIPHER + '.decrypt', params={'ciphertext': buf},
                     raises={'ValueError': ('iff', '%s or (hasattr(self._key, "_d") and not %s)' % (wrong, ok)),
                             'TypeError': ('only_if', 'not hasattr(self._key, "_d")')},
                     result='bytes',
@@ -103,14 +106,15 @@ def decrypt_contract():
                     modifies=[], opaque=[S + 'mgf1'])
 
 
-def registry():
+def registry(buf='buffer'):
+    """buf: python type of the message / ciphertext argument (bytes | bytearray | memoryview; 'buffer' = all three): one unit per type"""
     reg = common_registry()
     add_rsa_key(reg)
     add_mgf(reg)
     add_decoder(reg)
     add_cipher(reg)
-    reg.add(encrypt_contract())
-    reg.add(decrypt_contract())
+    reg.add(encrypt_contract(buf))
+    reg.add(decrypt_contract(buf))
     return reg
 
 
@@ -118,6 +122,8 @@ def units(prop, tier):
     from vf.pyunit import pyvc_unit
     if prop != 'C07':
         return []
-    return [pyvc_unit(prop, 'enc.oaep.oaep_decode', registry, [DEC + 'oaep_decode']),
-            pyvc_unit(prop, 'enc.oaep.encrypt', registry, [CIPHER + '.encrypt']),
-            pyvc_unit(prop, 'enc.oaep.decrypt', registry, [CIPHER + '.decrypt'])]
+    out = [pyvc_unit(prop, 'enc.oaep.oaep_decode', registry, [DEC + 'oaep_decode'])]
+    for buf in ('bytes', 'bytearray', 'memoryview'):
+        out.append(pyvc_unit(prop, 'enc.oaep.encrypt.' + buf, (lambda b=buf: registry(b)), [CIPHER + '.encrypt']))
+        out.append(pyvc_unit(prop, 'enc.oaep.decrypt.' + buf, (lambda b=buf: registry(b)), [CIPHER + '.decrypt']))
+    return out
